@@ -11,6 +11,7 @@ import (
 
 	"verif/harness/internal/engine"
 	"verif/harness/internal/ev"
+	"verif/harness/internal/loglevel"
 )
 
 // e2e: the same generated filters written as real flow YAML, loaded by the real
@@ -118,8 +119,10 @@ func TestEngineSelectionE2E(t *testing.T) {
 	rapid.Check(t, func(t *rapid.T) {
 		flows := genFlows().Draw(t, "flows")
 		txns := rapid.SliceOfN(genTxn(flows), 1, 8).Draw(t, "txns")
-		c := testCase{Flows: flows, Txns: txns}
+		c := testCase{Flows: flows, Txns: txns, LogLevel: loglevel.Gen().Draw(t, "log level")}
+		r.Class("log level " + c.LogLevel)
 		r.Case()
+		defer loglevel.Set(c.LogLevel)()
 		dir, err := engine.NewDir(base)
 		if err != nil {
 			fmt.Println("VERIF-INFRA:", err)
